@@ -39,4 +39,8 @@ def run(ctx):
     ctx.replay(sb, common.wrap(sdo_alpha.preamble_for(objs)), sdo_common.observe, variant="h0", defines=sdo_alpha.VARIANTS["h0"], ordered=True, label="sdo_claimed_frames")
     import sdo_trace
     sdo_trace.run(ctx, 500 if q else 15000, ndlg=8)
+    # "PDO in OPERATIONAL only" where the PDO service keeps state across NMT transitions (a buffered synchronous RPDO frame):
+    # configuration C09P of the PDO model, whose step claim is 'objects change through RPDO / SYNC in OPERATIONAL only'
+    import pdo_check
+    pdo_check.run(ctx, ["C09P"], quick_edges=4000, walks=(30, 1500))
 VARIANTS = {"default": (), "h0": ("CO_VERIF_SDO_BUF_SEG=3",)}
